@@ -344,6 +344,10 @@ def s_ext( ctx ):
     for s in succ:
         vals = sorted( { c.value for c in ast.walk( s.value ) if isinstance( c, ast.Constant ) and isinstance( c.value, int ) and not isinstance( c.value, bool ) } )
         sn = cfg.node_of( s )
+        pn = cfg.node_of( pre[-1] )
+        if pn is not None and removal_nodes and cfg.must_pass( pn, sn, removal_nodes, correlated=False ):
+            res.ok( src, s, 'the pre-loaded extended status was already removed on every path to this success status' )
+            continue
         kept = []
         for v in vals:
             def edge_ok( a_, b_, label, v=v ):
